@@ -104,19 +104,20 @@ def build_clause(acc, c):
                                 nodes = list(base.nodes)
                                 for i in takes:
                                     nodes[i] = GNode(**{**nodes[i].__dict__, "edges": nodes[i].edges + (Edge(-1, "pos"),)})
-                                p = GProg(nodes=tuple(nodes), params=(("x", 1),))
-                                bad = any((i in st) and (any(d not in st for d in p.deps(i)) or i in takes) for i in range(n))
-                                acc.evaluations += 1
-                                try:
-                                    build_gprog(p)
-                                    refused = False
-                                except (TawaziBaseException, ValueError):
-                                    refused = True
-                                if bad:
-                                    acc.mark_nontrivial(("build", n, tuple(es4), st, takes))
-                                if refused != bad:
-                                    acc.violation(V("setup_dependency_check", f"setup={st} takes_arg={takes} edges={es4}: builder {'refused' if refused else 'accepted'}, reference says {'refuse' if bad else 'accept'}",
-                                                    refused=refused), dict(c, n=n, es=es4, setup=list(st), takes=list(takes)), (), None, p.source())
+                                for default in (1, NODEFAULT):  # a defaulted and a required DAG argument
+                                    p = GProg(nodes=tuple(nodes), params=(("x", default),))
+                                    bad = any((i in st) and (any(d not in st for d in p.deps(i)) or i in takes) for i in range(n))
+                                    acc.evaluations += 1
+                                    try:
+                                        build_gprog(p)
+                                        refused = False
+                                    except (TawaziBaseException, ValueError):
+                                        refused = True
+                                    if bad:
+                                        acc.mark_nontrivial(("build", n, tuple(es4), st, takes, default))
+                                    if refused != bad:
+                                        acc.violation(V("setup_dependency_check", f"setup={st} takes_arg={takes} (default={default!r}) edges={es4}: builder {'refused' if refused else 'accepted'}, reference says {'refuse' if bad else 'accept'}",
+                                                        refused=refused), dict(c, n=n, es=es4, setup=list(st), takes=list(takes)), (), None, p.source())
 
 
 def run_shard(tier, k, n, acc):
